@@ -329,7 +329,15 @@ pub struct Violation {
 impl Violation {
     /// what must stay the same while minimising
     pub fn class(&self) -> (String, String, String) {
-        (self.property.clone(), self.clause.clone(), self.kind.clone())
+        // for result mismatches the outcome kinds (Ok / Err:<variant> / PANIC) are part of the class,
+        // so that shrinking cannot drift to a different disagreement
+        let head = |s: &str| s.split(|c| c == '#' || c == ' ').next().unwrap_or("").to_string();
+        let kind = if self.kind == "digest-mismatch" {
+            format!("{}:{}/{}", self.kind, head(&self.expected), head(&self.observed))
+        } else {
+            self.kind.clone()
+        };
+        (self.property.clone(), self.clause.clone(), kind)
     }
 }
 
